@@ -64,7 +64,6 @@ def build():
     return m
 
 
-PENDING = "check not yet built in this round (see DESIGN.md section 4 for the plan); listed here so that the manifest never claims more than exists"
 
 claim("C01",
       "For every header-value / chunk-size line / chunk terminator / field line / request-line field / body-boundary "
@@ -87,8 +86,135 @@ claim("C03",
       "Bounded (<=3 workers, tapes <=2-3 events, 4-5 quiet loops). Simulated kernel contract in engine/stubs/kernel.py "
       "is assumed. One known finding (timeout=0 + death inside fork()) is excluded by predicate and reported.", "4/C03")
 
-for _p in ["C%02d" % i for i in range(4, 21)]:
-    na(_p, PENDING)
+claim("C04",
+      "Master: for TERM/INT/QUIT with 0..3 workers whose exit delay (or refusal) is a solver variable, the real "
+      "run()/halt()/stop() exit with status 0 in time, signal politely first and KILL only the late ones, close the "
+      "listeners, unlink the unix socket only when no other master shares it and remove the pid file. Workers: with "
+      "TERM injected at every stub boundary of the real sync and gthread loops, every accepted request is answered in "
+      "full and no new connection is accepted.",
+      "Bounded schedules (<=3 workers, <=2-3 connections, TERM at one of the first ~10 boundaries). Signals are "
+      "delivered at stub boundaries only. gevent/eventlet loops are NOT covered (C event loops cannot be executed "
+      "symbolically) - stated as outside the claim. Simulated kernel contract assumed.", "4/C04")
+claim("C05",
+      "For one representative malformed head per parser exception class (plus garbage and a valid one), cut at every "
+      "offset and followed by EOF or ECONNRESET, with the solver choosing whether/when/with which errno the client socket "
+      "fails, the real handle() of sync, gthread and the async base never calls the application, writes nothing or "
+      "exactly one well-formed 4xx/5xx with Connection: close, closes the connection, and serves the next connection; "
+      "Worker.handle_error/util.write_error produce one consistent response or nothing for hostile payloads.",
+      "Bounded: concrete representative heads (truncation offset, fault schedule, payload characters are the solver "
+      "variables). Parser exception closure for arbitrary bytes is discharged by the C01 obligations. SSL and "
+      "gevent/eventlet outside.", "4/C05")
+claim("C06",
+      "2-safety per kernel: Unreader use, read_line, the header-block scan, parse_chunk_size, a chunked body through "
+      "Body.read, parse_trailers and LengthReader through Body.read/readline return the same result, raise the same "
+      "exception class and leave the same logical residue for [data] and for data cut at solver-chosen positions, for "
+      "all byte contents within the length bound.",
+      "Bounded: 2-6 symbolic bytes, 1-2 cuts, small symbolic limits/sizes; more pieces follow from the Unreader "
+      "obligation by induction (argued, not mechanised). PyBytesIO shim in symbolic runs.", "4/C06")
+claim("C07",
+      "Every program of <=2 (thorough 3) calls over read/readline/readlines/next with solver-chosen sizes on a body with "
+      "symbolic content agrees call by call with a binary-file model, for Content-Length framing with a network cut and "
+      "for ChunkedReader.read over any 2-piece layout, then EOF forever; sizes around the 1024-byte refill on concrete "
+      "1 KB bodies; after partial consumption the next request starts at the first byte after the body.",
+      "Bounded: bodies of 2-4 symbolic bytes (only LF matters to the code), programs of <=3 calls. readlines(hint) may "
+      "ignore the hint (PEP 3333).", "4/C07")
+claim("C08",
+      "Two header names that differ case-insensitively never share an environ variable (drop/refuse); scheme, "
+      "SCRIPT_NAME/PATH_INFO and REMOTE_ADDR change only for a peer in the corresponding allow list (matrix of peers x "
+      "allow lists x symbolic header value / PROXY line spellings); the PROXY-declared address is seen by every request of "
+      "a keep-alive connection through the real gthread and async-base handle().",
+      "Bounded: names of <=2 symbolic characters, values = pad+core+pad, concrete address/port spellings; inet_pton is C "
+      "code and runs concretely. dangerous header_map is excluded by the property.", "4/C08")
+claim("C09",
+      "For a symbolic status tail, header name or header value (any unicode code point in every position, within the length "
+      "bound) the head on the wire has exactly the server's lines + one per accepted header, every CR followed by LF and "
+      "vice versa, no NUL; refused input sends zero bytes; hop-by-hop names in every case spelling are dropped; a second "
+      "start_response(exc_info) replaces the stored headers or re-raises.",
+      "Bounded: one symbolic field at a time, 0-3 characters. The wire bytes are judged structurally by index loops on "
+      "the symbolic bytes.", "4/C09")
+claim("C10",
+      "The real run()->handle_hup->reload()->spawn/manage loop against the simulated kernel with a solver-chosen new "
+      "configuration: an unchanged address never closes or re-creates a listener, all new workers are forked before any old "
+      "one is signalled, old ones get TERM only, afterwards the pool is exactly the new number of post-reload workers, "
+      "tracked and reaped; the pid file follows the configuration.",
+      "Master decision logic only; what clients observe reduces to C04's worker-side TERM obligations. Bounded: <=3 old, <=3 "
+      "new workers, crash tape <=2, <=2 HUPs.", "4/C10")
+claim("C11",
+      "murder_workers signals exactly the workers whose heartbeat is older than the timeout (ABRT, then KILL) for symbolic "
+      "clocks/ages/timeouts; through the real run() loop a worker that stops heartbeating is aborted within timeout+1.2 s, "
+      "killed on the next scan if it ignores that, and replaced, while healthy ones are never signalled; the real sync "
+      "(1 and 2 listeners) and gthread loops never leave a heartbeat gap above the timeout for requests shorter than it.",
+      "Virtual integer time advanced only inside stubs; processing takes zero time. gevent/eventlet loops and really "
+      "blocked processes are outside.", "4/C11")
+claim("C12",
+      "Limit normalisation equals the documented semantics for all ints in -5..40000 (solver, incl. the buffer formula); "
+      "request line, field count and field size are rejected iff over the limit for all small limit/length combinations and "
+      "cuts; on endless delimiter-free input read_line, the header scan, parse_chunk_size and parse_trailers reject before "
+      "more than bound + one read is buffered.",
+      "Bounded small limits (the code is uniform in the limit value). limit 0 = unlimited is excluded from the buffer bound "
+      "as documented.", "4/C12")
+claim("C13",
+      "Inductive steps of accept / dispatch-on-readable / finish_request / murder_keepalived / one run() iteration from "
+      "every state of <=3 connections satisfying the representation invariant, with handler completions injected at every "
+      "lock release: the invariant (nr_conns = open connections, keep-alive set = registered idle connections ordered by "
+      "deadline, in-flight connections nowhere else, no double close) is preserved, connections are closed exactly when "
+      "their keep-alive time has passed and never while in flight, a readable connection is dispatched, and nr_conns "
+      "never exceeds worker_connections.",
+      "Thread switches are modelled at lock releases and stub calls only; bytecode-level races (unlocked `nr_conns -= 1`) "
+      "are outside. <=3 connections; the invariant was strengthened (deadline <= now + keepalive) after an unreachable "
+      "counterexample.", "4/C13")
+claim("C14",
+      "stop() unlinks the unix socket iff no other master can be using it (all flag combinations); reexec() is ignored "
+      "while an upgrade is pending or on the new master, else the child execs with GUNICORN_PID/GUNICORN_FD (or LISTEN_*) "
+      "exactly as required; start() adopts the inherited fds, uses the '.2' pid file and promotes/renames once when the "
+      "parent is gone; reap_workers() re-enables USR2; in every history of <=3-5 events over two Arbiter objects the socket "
+      "file exists iff a master is alive.",
+      "Decision logic only: exec = constructing the second Arbiter from the recorded environment; real execvpe / fd "
+      "inheritance / clients during hand-over are outside.", "4/C14")
+claim("C15",
+      "unquote_to_wsgi_str equals an independent percent-decoder for every latin-1 string within the bound (symbolic); "
+      "header lists map to HTTP_*/CONTENT_* with repeated fields comma-joined in order for symbolic values; for targets "
+      "built by the solver from 24 representative characters in the origin/absolute/'//'/asterisk forms the real "
+      "parse_request_line + wsgi.create give RAW_URI, QUERY_STRING, PATH_INFO, SCRIPT_NAME equal to the reference, or "
+      "reject; method and protocol are passed through.",
+      "Obligation 3 enumerates representatives (urlsplit's lru_cache hashes its argument, which CrossHair can only "
+      "realise); obligations 1-2 are symbolic. '#' and authority-form are outside.", "4/C15")
+claim("C16",
+      "Through the real Application.load_config / Config.set / validators the effective value of an int, a flag, a string "
+      "and a list setting equals validator(value of the most authoritative mentioning source) for every subset of the four "
+      "sources with symbolic values, unmentioned settings keep their defaults, an invalid value raises; for every one of "
+      "the 72 settings with a CLI option the real add_option yields None when the flag is absent.",
+      "argparse's own parsing of argv and importing a real config file are outside (stubbed). One representative setting "
+      "per validator kind for the merge order; the per-setting None-default table covers all settings.", "4/C16")
+claim("C17",
+      "The real Pidfile.create/validate/unlink/rename on a file-system + liveness model: create refuses iff the file names a "
+      "live (or EPERM) other pid and takes over stale/garbage/empty files; with a crash before each mutating system call the "
+      "path holds the complete old or the complete new content; unlink/rename touch a file only if it contains the "
+      "instance's own pid; in all histories of 3-5 operations by two instances nobody removes the other's file or takes the "
+      "path from a live owner.",
+      "FS model: atomic rename, all-or-nothing write, no pid reuse. pids and file states from small enumerated sets.", "4/C17")
+claim("C18",
+      "Worker.__init__ computes max_requests + randint(0, jitter) (0 = never) for all small values; through the real "
+      "handle() of each worker class the worker stays alive exactly until the limit-th request, that request is answered "
+      "completely with Connection: close, a keep-alive connection is closed by it, and the real sync accept loop takes "
+      "exactly min(k, limit) connections.",
+      "Requests are served one after another (in-flight overlap of gthread is C13/C04); gevent/eventlet pools outside.", "4/C18")
+claim("C19",
+      "Through the real handle() of each worker class with 7 application behaviours x Content-Length x chunk lengths: "
+      "exactly one access record when the application call completes, with the wire status and resp.sent = body bytes on "
+      "the wire for every production mode incl. sendfile; at most one record for self-rejected requests; the real "
+      "Logger.atoms + SafeAtoms + format never render CR or LF for an arbitrary string in any client-influenced source and "
+      "for every documented atom.",
+      "Logger object without handlers (atoms/SafeAtoms/%-format are the real code). Arbitrary unicode strings of 2-3 "
+      "characters per source; the basic-auth user goes through the real base64 path with representative characters.", "4/C19")
+claim("C20",
+      "Under a POSIX credential model the real set_owner_process leaves real=effective=saved uid and gid equal to the "
+      "configured ids and, with initgroups, exactly the user's supplementary groups, for all id combinations; the heartbeat "
+      "file and unix socket end up owned by the worker's identity; the child side of the real spawn_worker reaches "
+      "init_process and calls set_owner_process(cfg.uid, cfg.gid, cfg.initgroups) before loading the application for "
+      "workers created by manage_workers, TTIN, reload and a USR2-started master.",
+      "Credential model checked once against the sandbox kernel (root). /proc observation of live processes across "
+      "HUP/USR2 histories is outside this technique.", "4/C20")
 
 if __name__ == "__main__":
     m = build()
